@@ -59,6 +59,10 @@ def main():
         meta["ran"].append("cargo test --workspace --no-fail-fast --offline (with change): %d passed, %d failed" % (ok, failed))
         for d in demos:
             shutil.copy(d, os.path.join(wt, "tests", os.path.basename(d)))
+        # helper directories of a demonstration (e.g. a probe program it compiles)
+        extra_dirs = [x for x in glob.glob(os.path.join(sdir, "*")) if os.path.isdir(x)]
+        for x in extra_dirs:
+            shutil.copytree(x, os.path.join(wt, "tests", os.path.basename(x)), dirs_exist_ok=True)
         res_with = {}
         for d in demos:
             name = os.path.basename(d)[:-3]
@@ -70,12 +74,20 @@ def main():
                 name = os.path.basename(d)[:-3]
                 rc, o = sh("cargo test --offline --no-default-features --test %s" % name, cwd=wt)
                 res_with[name + " (--no-default-features)"] = rc
+        release = False
+        if all(v == 0 for v in res_with.values()):
+            # ... or only in the release profile
+            release = True
+            for d in demos:
+                name = os.path.basename(d)[:-3]
+                rc, o = sh("cargo test --offline --release --test %s" % name, cwd=wt)
+                res_with[name + " (--release)"] = rc
         meta["demo_with_change_rc"] = res_with
         sh(["git", "apply", "-R", patch], cwd=wt)
         res_without = {}
         for d in demos:
             name = os.path.basename(d)[:-3]
-            rc, o = sh("cargo test --offline --test %s" % name, cwd=wt)
+            rc, o = sh("cargo test --offline %s--test %s" % ("--release " if release else "", name), cwd=wt)
             res_without[name] = rc
         meta["demo_without_change_rc"] = res_without
         meta["ran"].append("cargo test --offline --test <demo>: with change rc %s, without rc %s" % (res_with, res_without))
